@@ -434,6 +434,37 @@ def order_independence(seed):
             k = next(i for i in range(len(now)) if now[i] != was[i])
             bad.append({'key': f'order|{label}', 'sig': 'order|' + label, 'kind': 'spec',
                         'what': f'the {label} changed after later Grammar() calls: {inputs[k]!r} gave {was[k]}, now {now[k]}'})
+    # a name used again between the creation of a child and of a grandchild: the grandchild extends the chain that exists
+    # (its parent still extends the first grammar of that name)
+    a1, _ = rr.compile_grammar(f'grammar c13r_{seed}_a\nstart = X*\nX = "a"\nignore / +/\n')
+    b1, _ = rr.compile_grammar(f'grammar c13r_{seed}_b extends c13r_{seed}_a\noverride X = "b" | super.X\n')
+    rr.compile_grammar(f'grammar c13r_{seed}_a\nstart = (X | Z)*\nX = "a"\nZ = "z"\n')
+    try:
+        c1, _ = rr.compile_grammar(f'grammar c13r_{seed}_c extends c13r_{seed}_b\noverride X = "c" | super.X\n')
+        for t, want in (('c a b', 'V'), ('c  a', 'V'), ('c z', 'P')):
+            got = rr.run_real_api(c1.parse, t, 0, True)[0]
+            n += 1
+            if got[0] != want:
+                bad.append({'key': f'order|reuse|{t}', 'sig': 'order|name-reuse', 'kind': 'spec',
+                            'what': f'a grandchild created after the name of its grandparent was used again: {t!r} gives {got}, expected outcome class {want}'})
+    except Exception as exc:      # noqa: BLE001
+        bad.append({'key': 'order|reuse|create', 'sig': 'order|name-reuse', 'kind': 'spec',
+                    'what': f'a grandchild cannot be created after the name of its grandparent was used again: {type(exc).__name__}: {str(exc)[:120]}'})
+    # a child whose dotted name ends like a rule of its parent: the parent keeps its rule
+    pa, _ = rr.compile_grammar(f'grammar c13d{seed}\nstart = sub*\nsub = /[a-z]/\n')
+    sub_before = rr.run_real_api(pa.sub.parse, 'a', 0, True)[0]
+    pb, _ = rr.compile_grammar(f'grammar c13d{seed}.sub extends c13d{seed}\noverride sub = /[A-Z]/\n')
+    n += 2
+    try:
+        sub_after = rr.run_real_api(pa.sub.parse, 'a', 0, True)[0]
+    except Exception as exc:      # noqa: BLE001
+        sub_after = ('X', type(exc).__name__)
+    if sub_after != sub_before:
+        bad.append({'key': 'order|dotted-rule', 'sig': 'order|dotted-rule', 'kind': 'spec',
+                    'what': f'creating "grammar p.sub extends p" changed the rule sub of p: sub.parse("a") gave {sub_before}, now {sub_after}'})
+    got = rr.run_real_api(pb.parse, 'AB', 0, True)[0]
+    if got[0] != 'V':
+        bad.append({'key': 'order|dotted-child', 'sig': 'order|dotted-rule', 'kind': 'spec', 'what': f'the child p.sub does not parse "AB": {got}'})
     want_c = {'bu': 'V', 'bt': 'V', 'ba': 'V', 'bs': 'E', 'babu': 'V', 'bub': 'P'}
     for t, cls in want_c.items():
         got = rr.run_real_api(c.parse, t, 0, True)[0]
@@ -486,6 +517,17 @@ TEMPLATE_CHAINS = [
       None],
      [' ab cd', 'ab cd ', '  ', 'ab', '']),
 ]
+
+
+# no grammar of the chain has a rule called start: a derived grammar starts where its parent starts
+TEMPLATE_CHAINS.append(
+    (['grammar {p}a\nDoc = Item*\nItem = Word | Num\nWord = /[a-z]+/\nNum = /[0-9]+/\nignore / +/\n',
+      'grammar {p}b extends {p}a\noverride Num = /[0-9]+/ |> `int`\n',
+      'grammar {p}c extends {p}b\nignore /#/\n'],
+     ['Doc = Item*\nItem = Word | Num\nWord = /[a-z]+/\nNum = /[0-9]+/\nignore / +/\n',
+      'Doc = Item*\nItem = Word | Num\nWord = /[a-z]+/\nNum = /[0-9]+/ |> `int`\nignore / +/\n',
+      None],
+     ['a 1', ' a 1', '12', 'ab cd', '', '1 a#']))
 
 
 def _deep(n):
